@@ -178,38 +178,22 @@ let codegen_main () =
      | _ -> failwith ("bad line: " ^ line))
   done with End_of_file -> ())
 
-(* compile: stdin lines = an expression in prefix form; stdout: the instruction text gen_expr emits for the whole tree according to
-   Model/ExprGen.v, labels numbered in allocation order (C01) *)
+(* compile: stdin lines = an expression in prefix form; stdout: the instructions gen_expr emits for the whole tree according to
+   Model/ExprGen.v + Model/ExprFlat.v (flatten), jump targets as instruction positions "@n" (C01, C03) *)
 let compile_main () =
-  let ctr = ref 0 in
-  let z_signed64 v = (* how printf("%ld") shows a 64-bit pattern *)
-    let s = string_of_z v in s in
-  let cmpz t = List.map (fun i -> string_of_chars (insn_text i)) (gen_cmp_zero t) in
-  let rec flat c = match c with
-    | GIns p -> List.map (fun i -> string_of_chars (insn_text i)) p
-    | GImm v -> ["mov $" ^ z_signed64 v ^ ", %rax"]
-    | GPush -> ["push %rax"]
-    | GPopRdi -> ["pop %rdi"]
-    | GSeq (a, b) -> let x = flat a in x @ flat b
-    | GAnd (a, ta, b, tb) ->
-      incr ctr; let c = !ctr in
-      let x = flat a in let y = flat b in
-      x @ cmpz ta @ [Printf.sprintf "je .L.false.%d" c] @ y @ cmpz tb @
-      [Printf.sprintf "je .L.false.%d" c; "mov $1, %rax"; Printf.sprintf "jmp .L.end.%d" c; Printf.sprintf ".L.false.%d:" c; "mov $0, %rax"; Printf.sprintf ".L.end.%d:" c]
-    | GOr (a, ta, b, tb) ->
-      incr ctr; let c = !ctr in
-      let x = flat a in let y = flat b in
-      x @ cmpz ta @ [Printf.sprintf "jne .L.true.%d" c] @ y @ cmpz tb @
-      [Printf.sprintf "jne .L.true.%d" c; "mov $0, %rax"; Printf.sprintf "jmp .L.end.%d" c; Printf.sprintf ".L.true.%d:" c; "mov $1, %rax"; Printf.sprintf ".L.end.%d:" c]
-    | GCond (cc, tc, a, b) ->
-      incr ctr; let c = !ctr in
-      let x = flat cc in let y = flat a in let z = flat b in
-      x @ cmpz tc @ [Printf.sprintf "je .L.else.%d" c] @ y @ [Printf.sprintf "jmp .L.end.%d" c; Printf.sprintf ".L.else.%d:" c] @ z @ [Printf.sprintf ".L.end.%d:" c] in
+  let rec nat_int = function O -> 0 | S m -> 1 + nat_int m in
+  let show = function
+    | FIns i -> string_of_chars (insn_text i)
+    | FImm v -> "mov $" ^ string_of_z v ^ ", %rax"
+    | FPush -> "push %rax"
+    | FPopRdi -> "pop %rdi"
+    | FJz t -> Printf.sprintf "je @%d" (nat_int t)
+    | FJnz t -> Printf.sprintf "jne @%d" (nat_int t)
+    | FJmp t -> Printf.sprintf "jmp @%d" (nat_int t) in
   (try while true do
     let line = String.trim (input_line stdin) in
     let (e, _) = parse_expr (List.filter (fun s -> s <> "") (String.split_on_char ' ' line)) in
-    ctr := 0;
-    print_endline (String.concat "; " (flat (compile e)))
+    print_endline (String.concat "; " (List.map show (gflatten (compile e) O)))
   done with End_of_file -> ())
 
 (* ---------------- calling convention (C06) ---------------- *)
